@@ -345,11 +345,19 @@ def c06(ctx):
                   {"limit_request_fields": 3, "limit_request_field_size": 40, "limit_request_line": 60},
                   # PROXY protocol on, the peer (127.0.0.1) allowed / not allowed to use it
                   {"proxy_protocol": True, "proxy_allow_ips": "10.9.8.7"}, {"proxy_protocol": True, "proxy_allow_ips": "*"},
-                  {"proxy_protocol": True, "proxy_allow_ips": "10.9.8.7", "limit_request_line": 20}):
+                  {"proxy_protocol": True, "proxy_allow_ips": "10.9.8.7", "limit_request_line": 20},
+                  # the documented switches that relax (or tighten) what the head parser accepts
+                  {"permit_obsolete_folding": True}, {"strip_header_spaces": True}, {"casefold_http_method": True},
+                  {"permit_unconventional_http_method": True},
+                  {"permit_unconventional_http_version": True}, {"header_map": "refuse"}, {"header_map": "dangerous"},
+                  {"permit_obsolete_folding": True, "strip_header_spaces": True,
+                   "permit_unconventional_http_method": True, "permit_unconventional_http_version": True,
+                   "casefold_http_method": True, "header_map": "dangerous"}):
         cfgv = drv.make_cfg(**cfgkw)
+        relax = not any(k.startswith(("limit_", "proxy_")) for k in cfgkw)
         for f in (("proxy",) if "proxy_protocol" in cfgkw else ("heads1", "pipeline", "chunks")):
             cases = emit_cases(f)
-            cases = rng.sample(cases, min(len(cases), 25 if ctx.quick else 250))
+            cases = rng.sample(cases, min(len(cases), (10 if relax else 25) if ctx.quick else (120 if relax else 250)))
             for ci, case in enumerate(cases):
                 v = rng.randrange(cz.num_variants(case["ms"]))
                 data = bytes(cz.concretize(case["ms"], v, case["cut"]).data)
